@@ -774,11 +774,12 @@ impl<'a> Elab<'a> {
 
     fn do_try(&mut self, t: ExprTry) -> Expr {
         let inner = self.fold_expr(*t.expr);
-        if !self.ctl && self.env.raii.is_empty() {
+        if !self.ctl && self.env.raii.is_empty() && !self.spec.attrs.iter().any(|a| a == "tryinto") {
             return Expr::Try(ExprTry { attrs: vec![], expr: Box::new(inner), question_token: t.question_token });
         }
         let drops = self.all_drops();
-        let ret = self.wrap_ret(Some(parse_quote!(Err(__e))));
+        let conv: Expr = if self.spec.attrs.iter().any(|a| a == "tryinto") { parse_quote!(Err(vx_into(__e))) } else { parse_quote!(Err(__e)) };
+        let ret = self.wrap_ret(Some(conv));
         parse_quote!(match #inner {
             Ok(__v) => __v,
             Err(__e) => { #(#drops)* return #ret; }
@@ -938,6 +939,13 @@ impl<'a> Elab<'a> {
             self.unsupported("Weak::upgrade outside `if let Some(x) = ..upgrade()`", sp);
         }
 
+        // `X.m(args)` → `f(X, args)` (by value / by shared reference; trusted helper)
+        if let Some((_, to)) = self.u.methodval.iter().find(|(a, _)| *a == method).cloned() {
+            let recv = self.fold_expr((*m.receiver).clone());
+            let args: Vec<Expr> = m.args.iter().cloned().map(|a| self.fold_expr(a)).collect();
+            let f = ident(&to);
+            return parse_quote!(#f(#recv #(, #args)*));
+        }
         // std methods without a vstd spec: `X.m(args)` → `f(&mut X, args)` (trusted helper, listed as assumption)
         if let Some((_, to)) = self.u.methodfn.iter().find(|(a, _)| *a == method).cloned() {
             let recv = self.fold_expr((*m.receiver).clone());
